@@ -60,7 +60,7 @@ def name_items():
     # escape (hexadecimal and octal digits), in export names and in the names of a global import (both end up in C string literals)
     def raw(bs):
         return {"bytes": list(bs)}
-    hard = [b"gr\xc3\xb6\xc3\x9fe", b"\xcf\x802", b"\x7fA", b"\x01f0", b"\x1b[0m", b"a\xffb\xfec", b"\x079", b"q\x00z" if False else b"\x0377", b"\xe2\x82\xacd", b"??=\x80a"]
+    hard = [b"gr\xc3\xb6\xc3\x9fe", b"\xcf\x802", b"\x7fA", b"\x01f0", b"\x1b[0m", "a\u00ffb\u00fec".encode("utf-8"), b"\x079", b"\x0377", b"\xe2\x82\xacd", "??=\u0080a".encode("utf-8")]          # (all well-formed UTF-8: names must be)
     for j, nm in enumerate(hard):
         m = {"types": [{"p": [], "r": ["i32"]}],
              "imports": [{"mod": "m%d" % j, "name": "n%d" % j, "wire_mod": list(nm), "wire_name": list(nm[::-1]), "kind": "global", "t": "i32", "mut": False}],
